@@ -89,7 +89,12 @@ def make_bundle(rng, idx):
                 if f["type"] == {"n": "String"} and rng.random() < 0.6:
                     f["sdl_directives"] = " @mark"; marked += 1
     ext_target = sg.obj_names[0]
-    model["sdl_extra"] = ['directive @mark(tag: String = "d") on FIELD_DEFINITION | OBJECT', f"extend type {ext_target} @mark(tag: \"ext\")"]
+    # the same directive NAME is declared with different locations under different schema names: a document using
+    # @mark on a query field is valid for a "wide" bundle and must be refused by a "narrow" one, whoever validated first
+    wide = rng.random() < 0.5
+    model["sdl_extra"] = ['directive @mark(tag: String = "d") on FIELD_DEFINITION | OBJECT' + (" | FIELD" if wide else ""), f"extend type {ext_target} @mark(tag: \"ext\")"]
+    for q, opn, variables in list(probes[:2]):
+        probes.append((q.replace("{", '{ __typename @mark(tag: "q") ', 1), opn, variables))
     return {"name": f"name{idx}", "model": model, "env": renv, "tag": tag, "probes": probes}
 
 def alone(bundle):
